@@ -2191,3 +2191,27 @@ int32_t parseProperty(FILE *file, ParserBuilder *aParserBuilder)
     utap__delete_buffer(YY_CURRENT_BUFFER);
     return res;
 }
+
+#ifdef UTAP_VERIF
+/* Verification hook (libutap itself never calls it): the token string the scanner makes of a text, without parsing.
+   syntax: 0 = 4.x model text, 1 = 3.x model text, 2 = query text - the masks the entry points select. The start
+   condition is left as the scan leaves it, as after a parse. */
+int32_t utap_verif_scan(const char* str, ParserBuilder* builder, int syntax_kind,
+                        void (*sink)(int token, const char* name, const char* text, uint32_t start, uint32_t end, void* ctx), void* ctx)
+{
+    utap__scan_string(str);
+    syntax = syntax_kind == 2 ? syntax_t::PROPERTY : (syntax_kind == 1 ? syntax_t::OLD_GUIDING : syntax_t::NEW_GUIDING);
+    syntax_token = 0;
+    ch = builder;
+    tracker.setPath(ch, "");
+    const uint32_t base = tracker.position;
+    int32_t count = 0;
+    for (int token = lexer_flex(); token != 0; token = lexer_flex()) {
+        sink(token, yysymbol_name(YYTRANSLATE(token)), utap_text, yylloc.start - base, yylloc.end - base, ctx);
+        ++count;
+    }
+    utap__delete_buffer(YY_CURRENT_BUFFER);
+    ch = nullptr;
+    return count;
+}
+#endif
